@@ -125,15 +125,27 @@ public:
     auto ret = UNSAFE_unverified();
     if (ret != nullptr) {
       // Size of one pointee. Fundamental and pointer types are sized as they
-      // are laid out in sandbox memory, structs conservatively with the
-      // application's size. Pointers to void, functions or incomplete types
-      // are counted in bytes
+      // are laid out in sandbox memory. Structs and arrays are sized with the
+      // application's layout, or with the sandbox's where that is known
+      // (registered structs, arrays of these or of fundamental types) and
+      // larger: count whole elements of the sandbox have to lie inside.
+      // Pointers to void, functions or incomplete types are counted in bytes
       size_t el_size = 1;
       using T_El = std::remove_cv_t<T_Pointed>;
       if constexpr (detail::is_basic_type_v<T_El> && !std::is_void_v<T_El>) {
         el_size = sizeof(tainted_volatile<T_El, T_Sbx>);
       } else if constexpr (detail::is_complete_object_v<T_El>) {
         el_size = sizeof(T_El);
+        using T_Base = std::remove_cv_t<std::remove_all_extents_t<T_El>>;
+        if constexpr (std::is_class_v<T_Base>
+                        ? detail::has_sandbox_equivalent_v<T_Base, T_Sbx>
+                        : detail::is_basic_type_v<T_Base>) {
+          constexpr size_t sbx_size = sizeof(tainted_volatile<T_Base, T_Sbx>) *
+                                      (sizeof(T_El) / sizeof(T_Base));
+          if (sbx_size > el_size) {
+            el_size = sbx_size;
+          }
+        }
       }
       detail::dynamic_check(
         count <= std::numeric_limits<size_t>::max() / el_size,
